@@ -23,7 +23,7 @@
    code: mint_mint_race is the computed schedule (known finding, c03-sched).
 *)
 From Coq Require Import ZArith List Bool.
-From Verif Require Import Model Sem InvDb InvSwap InvMint InvMelt Corollaries Queries Footprint HRel Global GlobalQuote GlobalValue GlobalErr GlobalQuery GlobalMelt GlobalKeys Cuts CutOrder Conc Races GlobalBalance GlobalLedger Reconf GlobalPoll Trace Admin AdminProofs CutValue CutMint CutFrames ConcValue CutHistory CutBalance.
+From Verif Require Import Model Sem InvDb InvSwap InvMint InvMelt Corollaries Queries Footprint HRel Global GlobalQuote GlobalValue GlobalErr GlobalQuery GlobalMelt GlobalKeys Cuts CutOrder Conc Races GlobalBalance GlobalLedger Reconf GlobalPoll Trace Admin AdminProofs CutValue CutMint CutFrames ConcValue CutHistory CutBalance CutLedger.
 Import ListNotations.
 Open Scope Z_scope.
 
@@ -37,6 +37,20 @@ Theorem C03_quote_issued_at_most_once_per_payment : forall (cfg : config) (h : l
         (mq_state m = 0 -> cnt (mq_id m) iss <= cnt (mq_id m) cred).
 Proof. exact @quote_issued_at_most_once_per_payment. Qed.
 Print Assumptions C03_quote_issued_at_most_once_per_payment.
+
+Theorem C03_quote_issued_at_most_once_with_cuts : forall (cfg : config) (h : list hitem),
+       cfg_ok cfg ->
+       Forall cut_item h ->
+       hhonest cfg world0 h ->
+       Forall item_u64 h ->
+       let
+       '(w, iss, cred) := htrace cfg world0 h [] [] in
+        forall m : mquote,
+        In m (d_mq (w_db w)) ->
+        cnt (mq_id m) iss <= esett w m + cnt (mq_id m) cred /\
+        (mq_state m = 0 -> cnt (mq_id m) iss <= cnt (mq_id m) cred).
+Proof. exact @quote_issued_at_most_once_with_cuts. Qed.
+Print Assumptions C03_quote_issued_at_most_once_with_cuts.
 
 Theorem C03_mint_cut_states : forall (mem_ks : list ksrow) (active id : Z) (outs : list bmsg) (sig : Z) (n : nat) (f : oracle) (w : world),
        mint_cut_state id outs w (fst (run_n n (mint_tokens mem_ks active id outs sig) f w)).
